@@ -1,6 +1,8 @@
 import TantivyModel.Proofs.Footer
 import TantivyModel.Proofs.Decimal
 import TantivyModel.Proofs.Crc32Burst
+import TantivyModel.Proofs.Crc32Order
+import TantivyModel.Proofs.Crc32Bits
 /-!
 # C20 — Checksum validation detects any corruption of a segment file
 
@@ -111,6 +113,41 @@ theorem C20_burst32_detected (C : PayloadCodec) (hC : GoodCodec C) (pre suf : By
       = .damaged := by
   have hne := crc32_burst4 pre suf b0 b1 b2 b3 a0 a1 a2 a3
     (fun ⟨h0, h1, h2, h3⟩ => h ⟨h0.symm, h1.symm, h2.symm, h3.symm⟩)
+  unfold validate
+  rw [C20_extract_append C hC]
+  simp [hne]
+
+/-- the burst guarantee at bit granularity: if the stored file has the length of the original and
+differs from it only inside some window of 32 consecutive bit positions (bits counted in the order
+the checksum consumes them: least significant bit of each byte first; the window need not be byte
+aligned and may span five bytes), validation reports it -/
+theorem C20_burst_any_32_bits_detected (C : PayloadCodec) (hC : GoodCodec C) (body body' : Bytes)
+    (v : Version) (hlen : body.length = body'.length) (p : Nat)
+    (hout : ∀ i, (i < p ∨ p + 32 ≤ i) → (bitsOf body')[i]? = (bitsOf body)[i]?)
+    (hne : body' ≠ body) :
+    validate C (body' ++ footerBytes C { version := v, crc := crc32 body }) = .damaged := by
+  have hne' := crc32_burst_bits body' body hlen.symm p hout hne
+  unfold validate
+  rw [C20_extract_append C hC]
+  simp [hne']
+
+/-- the CRC-32 register has period exactly `2^32 - 1` on the state `1` (proved by representing the
+step as a bit matrix, repeated squaring evaluated by the kernel, and a minimal-period argument over
+the prime factors `3 · 5 · 17 · 257 · 65537`): this is what makes double-bit errors detectable -/
+theorem C20_crc_register_order (d : Nat) (h0 : 0 < d) (h1 : d < 4294967295) :
+    iter d 1#32 ≠ 1#32 := iter_order d h0 h1
+
+/-- every pair of flipped bits in two different bytes of the body is detected whenever the two
+bytes lie in a window shorter than `2^32 - 1` bits. With `C20_single_byte_detected` (both bits in
+one byte) this covers every double-bit error of every file below 512 MiB. -/
+theorem C20_two_bit_flips_detected (C : PayloadCodec) (hC : GoodCodec C) (pre mid suf : Bytes)
+    (a b : UInt8) (k l : Nat) (hk : k < 8) (hl : l < 8)
+    (hlen : 8 * (mid.length + 2) ≤ 4294967295) (v : Version) :
+    validate C
+      ((pre ++ ((a ^^^ (1 <<< UInt8.ofNat k)) :: (mid ++ ((b ^^^ (1 <<< UInt8.ofNat l)) :: suf))))
+        ++ footerBytes C { version := v, crc := crc32 (pre ++ (a :: (mid ++ (b :: suf)))) })
+      = .damaged := by
+  have hne := crc32_two_bits pre mid suf a b k l hk hl hlen
   unfold validate
   rw [C20_extract_append C hC]
   simp [hne]
@@ -255,5 +292,17 @@ example : (1 : Nat) < ([1, 2, 3] : Bytes).length ∧ (9 : UInt8) ≠ ([1, 2, 3] 
 example : isCompatible { version := ⟨0, 26, 0, 7⟩, crc := 0 } = true := by decide
 example : isCompatible { version := ⟨0, 26, 0, 3⟩, crc := 0 } = false := by decide
 example : crc32 [1, 2, 3] ≠ crc32 [1, 9, 3] := by decide +kernel
+-- the hypotheses of `C20_burst_any_32_bits_detected` are met by a concrete pair: bits of a
+-- 6-byte body changed (bits 12..35: a window touching four bytes, not byte aligned)
+example : ([1, 0xF2, 3, 4, 0x05, 6] : Bytes).length = ([1, 0x02, 0xFC, 0xFB, 0x0A, 6] : Bytes).length
+    ∧ (∀ i, i < 48 → (i < 12 ∨ 12 + 32 ≤ i) →
+        (bitsOf [1, 0x02, 0xFC, 0xFB, 0x0A, 6])[i]? = (bitsOf [1, 0xF2, 3, 4, 0x05, 6])[i]?)
+    ∧ ([1, 0x02, 0xFC, 0xFB, 0x0A, 6] : Bytes) ≠ [1, 0xF2, 3, 4, 0x05, 6] := by decide
+-- the hypotheses of `C20_two_bit_flips_detected` are met by a concrete file
+example : (0 : Nat) < 8 ∧ (7 : Nat) < 8 ∧ 8 * (([2, 3] : Bytes).length + 2) ≤ 4294967295 := by decide
+example (v : Version) : True := by
+  have := C20_two_bit_flips_detected decimalCodec C20_decimalCodec_good ([1] : Bytes) [2, 3] [4] 5 6 0 7
+    (by decide) (by decide) (by decide) v
+  trivial
 
 end TantivyModel.C20
